@@ -219,7 +219,20 @@ def _obs():
                       'differ between runs, and the plausible dates found; no patterns, no removals',
                       '<=%d output lines, the first %d of the 6 token flags symbolic per line, optional dated line, '
                       'per-line "differed" flag' % (nl, ntok), param={'nl': nl, 'ntok': ntok}, timeout=to, tier=tier))
+    obs.append(Ob('K4', 'k4_binary', 'a binary output file that differs from its reference in any byte (or in length) '
+                  'fails its test (same obligation as C15-K1)', 'two symbolic byte strings of length <=3', timeout=300,
+                  stubs=['fakefs']))
     return obs
+
+
+def k4_binary(a: List[int], b: List[int]) -> bool:
+    """
+    pre: len(a) <= 3 and len(b) <= 3
+    pre: all(0 <= x <= 255 for x in a) and all(0 <= x <= 255 for x in b)
+    post: __return__
+    """
+    from vp.harness import C15
+    return C15.binary_body(a, b)
 
 
 def k1_names(i1: List[int], i2: List[int], i3: List[int]) -> bool:
@@ -228,7 +241,7 @@ def k1_names(i1: List[int], i2: List[int], i3: List[int]) -> bool:
     pre: C11._idx_ok(i3, 2, C11.FILE_ALPHABET, 1)
     post: __return__
     """
-    return C11.k2_test_names(i1, i2, i3)
+    return C11.test_names_body(i1, i2, i3)
 
 
 from vp.harness import C11      # noqa: E402  (k1 reuses the C11-K2 obligation body)
